@@ -1,2 +1,28 @@
 """Class predicates of listed known findings: does a failing case fall into the class?"""
-CLASSES = {}
+import binascii, re
+
+
+def _stream_of(failure):
+    inp = failure.get('input', {}) if isinstance(failure, dict) else {}
+    hx = inp.get('stream_hex') or failure.get('stream_hex')
+    if not hx or hx == '.':
+        return b''
+    return binascii.unhexlify(hx)
+
+
+def dir_file_swap(suite, failure):
+    """some commit block contains `D p` (or an M of file p) together with `M … p/…`"""
+    s = _stream_of(failure)
+    for block in s.split(b'\ncommit '):
+        dels = set(re.findall(rb'^D "?([^"\n]+)"?$', block, flags=re.M))
+        adds = re.findall(rb'^M \d+ \S+ "?([^"\n]+)"?$', block, flags=re.M)
+        for d in dels:
+            if any(a.startswith(d + b'/') for a in adds):
+                return True
+        for a in adds:
+            if any(d.startswith(a + b'/') for d in dels):
+                return True
+    return False
+
+
+CLASSES = {'dir-file-swap': dir_file_swap}
